@@ -1,5 +1,5 @@
 """Which functions, lemmas and bounded stand-ins decide which property (DESIGN.md sections 0 and 5)."""
-from . import abnf, core, recv, app, url, http
+from . import abnf, core, recv, app, url, http, net
 from harness import appsim
 
 GLOBAL_TRUSTED = [
@@ -11,7 +11,7 @@ GLOBAL_TRUSTED = [
 
 LEMMAS = {}
 NEVER_RETURNS = set()  # functions whose contract cases legitimately have no normal exit
-MODULES = [abnf, recv, core, url, app, http]
+MODULES = [abnf, recv, core, url, app, http, net]
 COST = {}
 
 
